@@ -6,11 +6,21 @@ import json, subprocess
 ALL = ["C%02d" % i for i in range(1, 20)]
 
 CHECKS = {
+ "C03": dict(
+   category="model_checking", design="DESIGN.md §4 C03, §2.3 (L1)",
+   text="Explicit-state breadth-first search over the REAL replica state machine (bftsim: every transition restores a real StateMachine from plain-data state onto a fresh in-memory engine + real EngineManager, runs one real handler, drains the outbound channel). One replica of K4=[2,2,1,1] (a weight-1 validator) against an environment that holds the other three keys (a quorum), so any certificate / vote / proposal of the finite alphabet can be fabricated: equivocating leaders, replays, stale and future views. A crash is injected at EVERY durable write (set_state) of every accepted step, both outcomes (write applied / lost): the handler future is dropped at that point, whatever is already in the outbound channel has left the node, and a new incarnation starts from the durable image; plain restarts too. State = (volatile snapshot, durable image, stored blocks, summary of everything signed by all incarnations). Oracle: <= 1 distinct commit vote per view, no commit vote for a view <= a view with a signed timeout vote, vote views never go backwards. Two passes: minimal alphabet as deep as the budget allows, then the wide alphabet breadth-first; the completed BFS depth is reported.",
+   note="set_state is atomic by contract (no torn writes); the reachable graph is not exhausted in the quick tier (depth 3-4, ~2*10^5 real transitions) - the evidence reports completed depth and `exhaustive: false`; views above the alphabet's bound are outside the scope.",
+   technique="explicit-state model checking over the real transition function with exhaustive crash-point enumeration (every durable write x {applied, lost}) and a signed-history monitor"),
  "C04": dict(
    category="exploration", design="DESIGN.md §4 C04",
    text="Exhaustive small-scope enumeration on the real CommitQC/TimeoutQC add()/verify(), LeaderProposal/ReplicaNewView/FinalBlock/Signed verify: all weight vectors over {1,2,3} with <= 4 (quick) / 5 (thorough) validators plus unit committees of 6 (10, 11 thorough); every signer subset assembled incrementally; every single corruption of a listed alphabet applied to every accepted and every boundary-rejected certificate (signer bits, bitmap length, view/epoch/genesis/payload/number, foreign signatures, overlapping groups with genuine double signatures, nested under-weight / wrong-epoch certificates genuinely signed, wrong verification context). Oracle: verdict == the harness's own predicate (distinct members, weight >= n - floor((n-1)/5), signature is the aggregate of exactly the claimed (key, vote) pairs); refused add() leaves the certificate unchanged.",
    note="BLS12-381 (blst) soundness is trusted; committees > 6 (11) validators, weights > 3 and multi-point corruptions are outside the scope.",
    technique="exhaustive bounded enumeration of inputs (all committees x signer subsets x single corruptions of a small scope) on the real code against a reference predicate"),
+ "C05": dict(
+   category="model_checking", design="DESIGN.md §4 C05, §2.3 (L1)",
+   text="Explicit-state breadth-first search over the real replica state machine (bftsim L1: one replica of K4 against an environment holding a quorum of keys, finite alphabet of valid / stale / future-view / wrong-leader / non-member / bad-signature / other-epoch / under-weight-certificate / invalid, oversized, missing, superfluous payload inputs, timer, block sync, restart). On EVERY transition a reference replica (refmodel.rs: transcription of spec/informal-spec/replica.rs + proposer.rs over abstract values with the implementation's refinements R1-R11 listed explicitly) is stepped on the abstraction of the same (state, input) and must agree on outcome (accepted / refused / blocked), resulting abstract state (view, phase, high vote, certificates, proposal cache, vote caches, stored blocks) and the multiset of emitted messages; plus along every edge: view / highest certificates / durable view / store monotone, view increases only on a verifying certificate for view-1, every emitted message verifies in isolation.",
+   note="Certificate and signature validity is delegated to the roles library (C04's subject); the quick tier reaches BFS depth 2-3 (~8*10^4 real transitions), reported as such; inputs outside the alphabet (e.g. block numbers > first+1) are outside the scope.",
+   technique="explicit-state model checking over the real transition function with lock-step conformance against a reference model transcribed from the informal specification"),
  "C07": dict(
    category="model_checking", design="DESIGN.md §4 C07, §2.5",
    text="Apalache decides the invariant of models/Thresholds.tla for every n in 1..2^64-1; TLC enumerates the model's states explicitly and every dumped state is replayed against the real max_faulty_weight/quorum_threshold/subquorum_threshold and Schedule methods; the real functions are additionally enumerated exhaustively over [1,2^28] (quick) / [1,2^34] (thorough), windows around every power of two and the top of the u64 range, against a u128 transcription and the inequalities themselves. This is the only property whose whole domain is covered (on the model); the code is bound to the model by finite replay.",
